@@ -27,4 +27,4 @@ else
   else echo "$SEED $PROP INCONCLUSIVE rc=$rc $(grep -m1 INCONCLUSIVE $VR/out/stderr.txt | cut -c1-300)"; fi
 fi
 mkdir -p /tmp/csout; cp $VR/out/stderr.txt /tmp/csout/$SEED.$PROP.stderr.txt 2>/dev/null
-git -C /repo worktree remove --force $WT >/dev/null 2>&1; rm -rf /tmp/cs/$SEED
+[ -n "${KEEP:-}" ] || { git -C /repo worktree remove --force $WT >/dev/null 2>&1; rm -rf /tmp/cs/$SEED; }
